@@ -6,9 +6,13 @@ import (
 	"reflect"
 	"strings"
 
+	"github.com/MinterTeam/minter-go-node/coreV2/check"
+	"github.com/MinterTeam/minter-go-node/coreV2/state/accounts"
 	tx "github.com/MinterTeam/minter-go-node/coreV2/transaction"
 	"github.com/MinterTeam/minter-go-node/coreV2/types"
+	"github.com/MinterTeam/minter-go-node/crypto"
 	"github.com/MinterTeam/minter-go-node/rlp"
+	"golang.org/x/crypto/sha3"
 )
 
 var realDecoder = tx.NewExecutorV3(tx.GetDataV3).(*tx.ExecutorV3)
@@ -51,6 +55,63 @@ func decodedFields(raw []byte) string {
 	d := t.GetDecodedData()
 	if d != nil {
 		sb.WriteString(renderStruct("d", reflect.Indirect(reflect.ValueOf(d))))
+	}
+	// oracle facts (hashes, signature recovery) the handlers of these types depend on, computed by the node's own functions
+	if serr == nil {
+		switch x := d.(type) {
+		case *tx.RedeemCheckData:
+			sb.WriteString(checkFacts(x, sender))
+		case *tx.CreateMultisigData:
+			m := accounts.CreateMultisigAddress(sender, t.Nonce)
+			fmt.Fprintf(&sb, " k.msig=%x", m[:])
+		}
+	}
+	return sb.String()
+}
+
+// checkFacts renders the check carried by a RedeemCheck transaction as the node decodes it: fields, recovered issuer,
+// the lock public key, the public key recovered from the proof over keccak(rlp[redeemer]) and the check hash.
+func checkFacts(data *tx.RedeemCheckData, redeemer types.Address) (out string) {
+	defer func() {
+		if r := recover(); r != nil {
+			out += " k.panic=1"
+		}
+	}()
+	if len(data.RawCheck) == 0 {
+		return " k.dec=empty"
+	}
+	c, err := check.DecodeFromBytes(data.RawCheck)
+	if err != nil {
+		return " k.dec=0"
+	}
+	var sb strings.Builder
+	val := "0"
+	if c.Value != nil {
+		val = c.Value.String()
+	}
+	fmt.Fprintf(&sb, " k.dec=1 k.chain=%d k.noncelen=%d k.due=%d k.coin=%d k.value=%s k.gascoin=%d", c.ChainID, len(c.Nonce), c.DueBlock, c.Coin, val, c.GasCoin)
+	if a, err := c.Sender(); err == nil {
+		fmt.Fprintf(&sb, " k.from=%x", a[:])
+	} else {
+		sb.WriteString(" k.from=bad")
+	}
+	h := c.Hash()
+	fmt.Fprintf(&sb, " k.hash=%x", h[:])
+	if c.Lock == nil {
+		sb.WriteString(" k.lock=nil")
+	} else if pk, err := c.LockPubKey(); err == nil {
+		fmt.Fprintf(&sb, " k.lock=%x", pk)
+	} else {
+		sb.WriteString(" k.lock=bad")
+	}
+	var senderAddressHash types.Hash
+	hw := sha3.NewLegacyKeccak256()
+	_ = rlp.Encode(hw, []interface{}{redeemer})
+	hw.Sum(senderAddressHash[:0])
+	if pub, err := crypto.Ecrecover(senderAddressHash[:], data.Proof[:]); err == nil {
+		fmt.Fprintf(&sb, " k.proofpub=%x", pub)
+	} else {
+		sb.WriteString(" k.proofpub=bad")
 	}
 	return sb.String()
 }
